@@ -3,7 +3,7 @@ EXTENDS PyAssist, Json
 
 MCNames == {"va", "vb", "w"}
 MCHOrder == <<"va", "vb", "w">>
-MCAllKinds == {"bind", "bindu", "use", "def", "class", "attr", "ret", "pass", "imp", "kw", "try", "fin"}
+MCAllKinds == {"bind", "bindu", "use", "def", "class", "attr", "ret", "pass", "imp", "kw", "try", "fin", "if", "els"}
 \* focus: unfinished try: blocks above keyword-argument calls (names bound by def only)
 MCTryKinds == {"use", "def", "ret", "pass", "kw", "try", "fin"}
 MCNoPrelude == {<<>>}
@@ -11,7 +11,14 @@ MCNoPrelude == {<<>>}
 \* inside another function; TLC continues with every body, the handler and what follows
 MCTryPreludes ==
   {<<Line(0, "def", "va", "w"), Line(1, "ret", "", "w"), Line(0, "try", "", "")>>,
-   <<Line(0, "def", "va", "w"), Line(1, "pass", "", ""), Line(0, "def", "vb", ""), Line(1, "try", "", "")>>}
+   <<Line(0, "def", "va", "w"), Line(1, "pass", "", ""), Line(0, "def", "vb", ""), Line(1, "try", "", "")>>,
+   \* a complete try nested in the body of an open one
+   <<Line(0, "try", "", ""), Line(1, "try", "", ""), Line(2, "pass", "", ""), Line(1, "fin", "", "")>>}
+\* focus: a function whose last statement is an if with an else clause (the clause keyword sits at the
+\* body's indentation)
+MCIfPreludes == {<<Line(0, "def", "va", "w"), Line(1, "bind", "vb", ""), Line(1, "if", "", "")>>,
+                 <<Line(0, "class", "w", ""), Line(1, "def", "va", "vb"), Line(2, "if", "", "")>>}
+MCIfFocusKinds == {"use", "pass", "els"}
 MCTryFocusKinds == {"use", "pass", "kw", "fin"}
 \* focus: imports (and the bindings they compete with)
 MCImpKinds == {"bind", "use", "def", "class", "pass", "imp"}
@@ -34,6 +41,7 @@ LineInfo(i) ==
   \* header: lines on which only the no-exception clause applies (block headers; on  from h import n
   \* completion proposes the names of h, a different contract)
   [scope |-> Encl(lines, i), header |-> Opens(lines[i]) \/ lines[i].k \in {"fin", "imp"},
+   handler |-> lines[i].k = "fin",
    visT |-> VisibleAt(lines, i, TRUE), visF |-> VisibleAt(lines, i, FALSE),
    mustT |-> MustAt(lines, i, TRUE), mustF |-> MustAt(lines, i, FALSE),
    cutT |-> IF NoCut(i) THEN {} ELSE MustAt(Cut(lines, i), i, TRUE),
